@@ -321,3 +321,180 @@ func ruleDecodeFresh(c *Ctx, r *Reporter) {
 		}
 	}
 }
+
+func init() {
+	register(&Rule{
+		ID: "QUEUE-CTOR", Props: []string{"C14", "C16"}, Floor: 7,
+		Doc: "the two retry heaps are built consistently: retries.queue orders by retryAt (earlier first) and records positions in retryItem.index; retries.revQueue orders by origRev (smaller first) and records positions in retryItem.revIndex; the heap's Swap/Push/Pop keep the recorded positions in step (both swapped items re-indexed, pushed item gets the new last position, popped item gets -1)",
+		Run: ruleQueueCtor,
+	})
+}
+
+func ruleQueueCtor(c *Ctx, r *Reporter) {
+	fn := c.Func("reconciler", "", "newRetries")
+	if fn == nil {
+		r.anchorMissing("reconciler.newRetries")
+		return
+	}
+	// field of the element items[param] loaded in a comparator
+	elemField := func(v ssa.Value) (param *ssa.Parameter, field string, ok bool) {
+		addr, isL := isLoad(v)
+		if !isL {
+			return nil, "", false
+		}
+		fa, isFA := addr.(*ssa.FieldAddr)
+		if !isFA {
+			return nil, "", false
+		}
+		_, f, _ := fieldOf(fa)
+		el, isL := isLoad(fa.X)
+		if !isL {
+			return nil, "", false
+		}
+		ix, isIx := el.(*ssa.IndexAddr)
+		if !isIx {
+			return nil, "", false
+		}
+		p, isP := ix.Index.(*ssa.Parameter)
+		if !isP {
+			return nil, "", false
+		}
+		return p, f, true
+	}
+	for _, spec := range []struct{ field, key, index string }{{"queue", "retryAt", "index"}, {"revQueue", "origRev", "revIndex"}} {
+		var ctor *ssa.Call
+		for _, ia := range allInstrs(fn) {
+			if st, ok := ia.In.(*ssa.Store); ok && isFieldAddrOf(st.Addr, "retries", spec.field) {
+				if call, ok := st.Val.(*ssa.Call); ok && c.calleeName(call) == "reconciler.newRetryPrioQueue" {
+					ctor = call
+				}
+			}
+		}
+		name := "reconciler.newRetries|" + spec.field
+		if ctor == nil || len(ctor.Call.Args) != 2 {
+			r.undecided(name, c.posStr(fn.Pos()), "retries."+spec.field+" is not built by newRetryPrioQueue(less, setIndex) in the constructor")
+			continue
+		}
+		less, _ := ctor.Call.Args[0].(*ssa.Function)
+		set, _ := ctor.Call.Args[1].(*ssa.Function)
+		if less == nil || set == nil {
+			r.undecided(name, c.posStr(instrPos(ctor)), "comparator / index setter are not function literals")
+			continue
+		}
+		// comparator: key(items[i]) before key(items[j])
+		goodLess, why := false, "the comparator does not compare "+spec.key+" of items[i] with items[j]"
+		for _, ret := range returnsOf(less) {
+			var x, y ssa.Value
+			switch v := ret.Results[0].(type) {
+			case *ssa.BinOp:
+				if v.Op == token.LSS {
+					x, y = v.X, v.Y
+				} else if v.Op == token.GTR {
+					x, y = v.Y, v.X
+				}
+			case *ssa.Call:
+				if c.calleeName(v) == "time.(Time).Before" {
+					x, y = v.Call.Args[0], v.Call.Args[1]
+				} else if c.calleeName(v) == "time.(Time).After" {
+					x, y = v.Call.Args[1], v.Call.Args[0]
+				}
+			}
+			if x == nil {
+				continue
+			}
+			px, fx, ok1 := elemField(x)
+			py, fy, ok2 := elemField(y)
+			if ok1 && ok2 && len(less.Params) == 3 {
+				switch {
+				case fx != spec.key || fy != spec.key:
+					why = "retries." + spec.field + " is ordered by " + fx + "/" + fy + " instead of " + spec.key
+				case px == less.Params[1] && py == less.Params[2]:
+					goodLess = true
+				case px == less.Params[2] && py == less.Params[1]:
+					why = "the comparator of retries." + spec.field + " is reversed: the heap's top is the item with the largest " + spec.key
+				}
+			}
+		}
+		r.check(goodLess, name+" ordered by "+spec.key, c.posStr(less.Pos()), "less(i, j) = items[i]."+spec.key+" before items[j]."+spec.key, why+" - the timer/low watermark follow the wrong item")
+		goodSet := false
+		for _, ia := range allInstrs(set) {
+			if st, ok := ia.In.(*ssa.Store); ok && isFieldAddrOf(st.Addr, "retryItem", spec.index) && len(set.Params) == 2 && st.Val == ssa.Value(set.Params[1]) {
+				if fa := st.Addr.(*ssa.FieldAddr); fa.X == ssa.Value(set.Params[0]) {
+					goodSet = true
+				}
+			}
+		}
+		for _, ia := range allInstrs(set) {
+			if st, ok := ia.In.(*ssa.Store); ok {
+				if fa, ok := st.Addr.(*ssa.FieldAddr); ok {
+					if _, f, _ := fieldOf(fa); f != spec.index {
+						goodSet = false
+					}
+				}
+			}
+		}
+		r.check(goodSet, name+" positions recorded in "+spec.index, c.posStr(set.Pos()), "setIndex stores the heap position into retryItem."+spec.index+" only", "the position of an item in retries."+spec.field+" is not recorded in retryItem."+spec.index+" (or in the other heap's field): Fix/Remove address the wrong entry")
+	}
+	// heap methods keep positions in step
+	setIndexCalls := func(m *ssa.Function) []*ssa.Call {
+		var out []*ssa.Call
+		for _, ia := range allInstrs(m) {
+			if call, ok := ia.In.(*ssa.Call); ok && !call.Call.IsInvoke() {
+				if _, ok := loadOfField(call.Call.Value, "retryPrioQueue", "setIndex"); ok {
+					out = append(out, call)
+				}
+			}
+		}
+		return out
+	}
+	if m := c.Func("reconciler", "retryPrioQueue", "Swap"); m != nil {
+		seen := map[*ssa.Parameter]bool{}
+		for _, call := range setIndexCalls(m) {
+			// setIndex(items[p], p)
+			if el, ok := isLoad(call.Call.Args[0]); ok {
+				if ix, ok := el.(*ssa.IndexAddr); ok {
+					if p, ok := ix.Index.(*ssa.Parameter); ok && call.Call.Args[1] == ssa.Value(p) {
+						seen[p] = true
+					}
+				}
+			}
+		}
+		r.check(len(m.Params) == 3 && seen[m.Params[1]] && seen[m.Params[2]], "reconciler.(retryPrioQueue).Swap|both items re-indexed", c.posStr(m.Pos()), "setIndex(items[i], i) and setIndex(items[j], j) after the swap", "Swap does not record the new position of both swapped items: a later Fix/Remove by recorded position hits another object's entry")
+	} else {
+		r.anchorMissing("reconciler.(retryPrioQueue).Swap")
+	}
+	if m := c.Func("reconciler", "retryPrioQueue", "Push"); m != nil {
+		good := false
+		for _, call := range setIndexCalls(m) {
+			if lc, ok := call.Call.Args[1].(*ssa.Call); ok {
+				if b, ok := lc.Call.Value.(*ssa.Builtin); ok && b.Name() == "len" {
+					if _, ok := loadOfField(lc.Call.Args[0], "retryPrioQueue", "items"); ok {
+						// before the append
+						good = true
+						for _, ia := range allInstrs(m) {
+							if ap, ok := ia.In.(*ssa.Call); ok {
+								if b, ok := ap.Call.Value.(*ssa.Builtin); ok && b.Name() == "append" && !instrDominates(lc, ap) {
+									good = false
+								}
+							}
+						}
+					}
+				}
+			}
+		}
+		r.check(good, "reconciler.(retryPrioQueue).Push|pushed item gets the last position", c.posStr(m.Pos()), "setIndex(item, len(items)) before the append", "Push does not record len(items) (taken before the append) as the new item's position")
+	} else {
+		r.anchorMissing("reconciler.(retryPrioQueue).Push")
+	}
+	if m := c.Func("reconciler", "retryPrioQueue", "Pop"); m != nil {
+		good := false
+		for _, call := range setIndexCalls(m) {
+			if k, ok := constInt(call.Call.Args[1]); ok && k == -1 {
+				good = true
+			}
+		}
+		r.check(good, "reconciler.(retryPrioQueue).Pop|popped item marked as not queued", c.posStr(m.Pos()), "setIndex(item, -1)", "Pop does not mark the removed item as not queued (-1): a later Add calls Fix with a stale position instead of pushing the item again - the retry is lost")
+	} else {
+		r.anchorMissing("reconciler.(retryPrioQueue).Pop")
+	}
+}
